@@ -265,6 +265,10 @@ theorem valid_new_entries (W0 : World) (st : SState) (op : SOp) (e : Str × Str 
     dsimp only at he
     repeat' split at he
     all_goals exact absurd he hn
+  | poke s =>
+    dsimp only at he
+    repeat' split at he
+    all_goals exact absurd he hn
 
 theorem cls_ok_unit (o : Outcome Unit) (h : o.cls = "ok") : o = .ok () := by
   cases o with
@@ -338,7 +342,32 @@ theorem sstep_no_panic (W0 : World) (st : SState) (op : SOp) : (sstep W0 st op).
                  all_goals simp
   | corrupt i => dsimp only; repeat' split
                  all_goals simp
+  | poke s => dsimp only; repeat' split
+              all_goals simp
 
+
+/-! ### in-place change of nested content -/
+
+/-- a poke touches neither the acceptance table nor the token counter (both wrappers) -/
+theorem sstep_poke_valid_n (W0 : World) (st : SState) (s : Str) :
+    (sstep W0 st (.poke s)).1.valid = st.valid ∧ (sstep W0 st (.poke s)).1.n = st.n := by
+  unfold sstep
+  dsimp only
+  repeat' split
+  all_goals exact ⟨rfl, rfl⟩
+
+theorem sstep_poke_legacy (W0 : World) (st : SState) (p : Payload) (sg : TVal) (s : Str)
+    (hmd : st.md = .legacy p sg) :
+    sstep W0 st (.poke s) = ({ st with md := .legacy (pokeP p s) sg }, "ok") := by
+  unfold sstep
+  simp only [hmd]
+
+/-- a small well-typed link whose command is `[cmd]` (for the non-vacuity examples of C04) -/
+def pokeDemoLink (cmd : Str) : Payload :=
+  .link (.struct [(lit% "_type", .str (lit% "link")), (lit% "name", .str (lit% "build")),
+    (lit% "materials", .map (some [])), (lit% "products", .map (some [])),
+    (lit% "byproducts", .map (some [])), (lit% "command", .list (some [.str cmd])),
+    (lit% "environment", .map (some []))])
 
 /-! ### adding a signature -/
 
